@@ -15,6 +15,9 @@ def factory(prop):
     if prop == "C11":
         from engines.conds import CondCheck
         return CondCheck()
+    if prop == "C08":
+        from engines.checkpoints import CheckpointCheck
+        return CheckpointCheck()
     raise SystemExit(f"unknown property {prop}")
 
 
